@@ -308,3 +308,16 @@ pub fn random_ident(r: &mut Rng) -> String {
         (0..n).map(|_| *r.pick(&['a', 'b', 'Z', '_', 'k', '\u{4e2d}'])).collect()
     }
 }
+
+
+/// A writer that accepts `left` bytes and fails from then on.
+pub struct FailingWriter { pub left: usize }
+impl std::io::Write for FailingWriter {
+    fn write(&mut self, buf: &[u8]) -> std::io::Result<usize> {
+        if self.left == 0 { return Err(std::io::Error::new(std::io::ErrorKind::Other, "writer full")); }
+        let n = buf.len().min(self.left);
+        self.left -= n;
+        Ok(n)
+    }
+    fn flush(&mut self) -> std::io::Result<()> { Ok(()) }
+}
